@@ -70,6 +70,7 @@ pub open spec fn kids(n: Expr) -> Seq<ExprRef> {
     }
 }
 
+//@@PRIM-BEGIN@@
 #[verifier::external_body]
 pub struct Context { _p: u8 }
 
@@ -91,7 +92,10 @@ impl Context {
     pub uninterp spec fn ty(&self, e: ExprRef) -> Type;
     pub uninterp spec fn true_ref(&self) -> ExprRef;
     pub uninterp spec fn false_ref(&self) -> ExprRef;
+    /// representation invariant of the parts that the API-level view does not show (interner / index-set internals)
+    pub uninterp spec fn rep(&self) -> bool;
 
+//@@PRIM-END@@
     pub open spec fn has(&self, e: ExprRef) -> bool { self.nodes().contains_key(e) }
 
     /// present, of bit-vector (array) type, and its denotation has that sort
@@ -262,6 +266,7 @@ impl Context {
     /// representation invariant of the context as seen through its API
     pub open spec fn wf(&self) -> bool {
         &&& self.all_nodes_ok()
+        &&& self.rep()
         &&& self.nodes().dom().finite()
         // hash-consing: one reference per node (ref_of is the inverse of nodes)
         &&& forall|r: ExprRef| #[trigger] self.has(r) ==> self.ref_of(self.nodes()[r]) == r
@@ -283,6 +288,7 @@ impl Context {
         &&& self.true_ref() == old.true_ref() && self.false_ref() == old.false_ref()
     }
 
+//@@NODERAW-BEGIN@@
     // ---------------------------------------------------------------- Index<ExprRef> (R1: ctx[e] == *ctx.node(e))
     #[verifier::external_body]
     pub fn node_raw(&self, e: ExprRef) -> (r: &Expr)
@@ -290,6 +296,7 @@ impl Context {
         ensures *r == self.nodes()[e],
     { unimplemented!() }
 
+//@@NODERAW-END@@
     /// looking at a node of a well-formed context tells what the node is *and* that it is well-typed (proved from wf)
     pub fn node(&self, e: ExprRef) -> (r: &Expr)
         requires self.has(e),
@@ -324,6 +331,7 @@ pub open spec fn rule_post(old: &Context, new: &Context, res: Option<ExprRef>, d
     &&& match res { Some(r) => new.has(r) && new.den(r) == d && new.ty(r) == t && new.den_sorted(r), None => true }
 }
 
+//@@LITGET-BEGIN@@
 impl BVLitValue {
     #[verifier::external_body]
     pub fn get<'c>(&self, ctx: &'c Context) -> (r: BitVecValueRef<'c>)
@@ -337,6 +345,7 @@ impl BVLitValue {
     { unimplemented!() }
 }
 
+//@@LITGET-END@@
 /// R11: an `impl FnMut(&ExprRef)` visitor seen as a call log
 pub struct Visitor { pub log: Ghost<Seq<ExprRef>> }
 impl Visitor {
